@@ -5,7 +5,8 @@ Driver for C03.  One case = one history.  `D` = number of dimensions; a resource
 pairs `<present 0|1> <value>`.
   dims <D>
   quota <name> <parent> <isParent> <allowLent> <max: D pairs> <min: D pairs>
-                                                           OnQuotaAdd / OnQuotaUpdate: add, max/min update, re-parenting
+                                                           OnQuotaAdd / OnQuotaUpdate: add; dropped when nothing differs
+                                                           (IsQuotaChange, key presence counts); max/min update, re-parenting
                                                            (parent differs) or tree reset (is-parent / allow-lent differs)
   rt <name> <runtime: D pairs>                             runtime list held after RefreshRuntime
   poddef <id> <quota> <nonPreemptible> <request: D pairs>  a pod object
@@ -61,7 +62,7 @@ def stepLine (s : DState) (line : String) : DState :=
       if xs.length ≠ 4 * D || n = rootName || ip > 1 || l > 1 then bad s else
       let mx := mkRL (xs.take (2 * D))
       let mn := mkRL (xs.drop (2 * D))
-      let go := after s (quotaSet s.st n p (ip = 1) (l = 1) mx mn)
+      let go := after s (quotaUpdate s.st n p (ip = 1) (l = 1) mx mn)
       if (findQ s.st.quotas p).isNone then bad s else
       match findQ s.st.quotas n with
       | some q =>
